@@ -549,6 +549,8 @@ _PIL = "urwid/widget/pile.py"
 _COL = "urwid/widget/columns.py"
 _BOX = "urwid/widget/box_adapter.py"
 MUTANTS = [
+    Mut("frame-keypress-own-body-height", "urwid/widget/frame.py", "Frame.keypress", "        (htrim, ftrim), _orig = self.frame_top_bottom((maxcol, maxrow), True)\n        remaining = maxrow - htrim - ftrim\n", "        remaining = maxrow\n        if self.header is not None:\n            remaining -= self.header.rows((maxcol,))\n        if self.footer is not None:\n            remaining -= self.footer.rows((maxcol,))\n", "GEOM|widget.frame.Frame.keypress"),
+    Mut("frame-keypress-forgets-footer", "urwid/widget/frame.py", "Frame.keypress", "        remaining = maxrow - htrim - ftrim\n", "        remaining = maxrow - htrim\n", "GEOM|widget.frame.Frame.keypress"),
     Mut("padding-fixed-click-not-hit-tested", _PAD, "Padding.mouse_event", "            if col < left or col >= left + width:\n                return False\n", "", "GUARD|widget.padding.Padding.mouse_event"),
     Mut("columns-click-left-edge-by-index", "urwid/widget/columns.py", "Columns.mouse_event", "            if col < x:\n                return False", "            x = sum(widths[:i]) + i * self.dividechars\n            if col < x:\n                return False", "SIB|widget.columns.Columns.mouse_event|mouse_event: dividers counted per index"),
     Mut("columns-pref-col-by-index", "urwid/widget/columns.py", "Columns.get_pref_col", "            col = cwidth // 2\n            col += sum(self.dividechars + wc for wc in widths[: self.focus_position] if wc > 0)", "            col = cwidth // 2\n            col += self.focus_position * self.dividechars\n            col += sum(widths[: self.focus_position])", "SIB|widget.columns.Columns.get_pref_col"),
